@@ -2034,9 +2034,9 @@ def _separator_positions_of(repo: Repo, f: FuncInfo, e: ast.expr, hay: str, dept
     return False
 
 
-def _evidence_polarity(repo: Repo, f: FuncInfo, x: ast.expr, H: str, N: str) -> int:
-    """+1: the (name-expanded) condition `x` being true shows that nothing or the separator follows H[:len(N)] (or H == N, or the
-    dotted prefix test itself); -1: its being false shows that; 0: no evidence."""
+def _evidence(repo: Repo, f: FuncInfo, x: ast.expr, H: str, N: str) -> tuple[int, str]:
+    """(+1, kind): the (name-expanded) condition `x` being true shows that nothing ('empty') or the separator ('dot') follows
+    H[:len(N)], or one of the two ('both'); (-1, kind): its being false shows that; (0, ''): no evidence."""
     L = f"len({N})"
     rest = f"{H}[{L}:]"
     u = lambda t: " ".join(t.split())  # noqa: E731
@@ -2044,30 +2044,33 @@ def _evidence_polarity(repo: Repo, f: FuncInfo, x: ast.expr, H: str, N: str) -> 
     if isinstance(x, ast.Call) and isinstance(x.func, ast.Name) and x.func.id == "bool" and len(x.args) == 1:
         x = x.args[0]
         if isinstance(x, ast.Compare):
-            return _evidence_polarity(repo, f, x, H, N)
+            return _evidence(repo, f, x, H, N)
         t = txt(x)
         if t == rest:
-            return -1  # falsy remainder: nothing follows
+            return -1, "empty"  # falsy remainder: nothing follows
         if t in (f"{rest}.partition('.')[0]", f"{rest}.split('.')[0]", f"{rest}.split('.', 1)[0]"):
-            return -1  # nothing before the first separator of the remainder: it is empty or starts with '.'
+            return -1, "both"  # nothing before the first separator of the remainder: it is empty or starts with '.'
         if isinstance(x, ast.Call) and isinstance(x.func, ast.Attribute) and x.func.attr == "startswith" and x.args:
             if txt(x.func.value) == rest and _const_str(x.args[0]) == ".":
-                return 1
+                return 1, "dot"
             if txt(x.func.value) == H and _is_dotted_form(x.args[0], {N}):
-                return 1
-        return 0
+                return 1, "dot"
+        return 0, ""
     if isinstance(x, ast.Compare) and len(x.ops) == 1:
         l, op, r = x.left, x.ops[0], x.comparators[0]
         tl, tr = txt(l), txt(r)
         if isinstance(op, (ast.Eq, ast.NotEq)):
             sides = {tl, tr}
-            hit = (
-                sides in ({f"{rest}[0]", "'.'"}, {f"{rest}[:1]", "'.'"}, {f"{H}[{L}]", "'.'"}, {f"{H}[{L}:{L} + 1]", "'.'"}, {rest, "''"}, {H, N}, {f"len({H})", L})
-                or sides in ({f"{rest}.partition('.')[0]", "''"}, {f"{H}.find('.', {L})", L})
-            )
-            if hit:
-                return 1 if isinstance(op, ast.Eq) else -1
-            return 0
+            kind = ""
+            if sides in ({f"{rest}[0]", "'.'"}, {f"{rest}[:1]", "'.'"}, {f"{H}[{L}]", "'.'"}, {f"{H}[{L}:{L} + 1]", "'.'"}, {f"{H}.find('.', {L})", L}):
+                kind = "dot"
+            elif sides in ({rest, "''"}, {H, N}, {f"len({H})", L}):
+                kind = "empty"
+            elif sides == {f"{rest}.partition('.')[0]", "''"}:
+                kind = "both"
+            if kind:
+                return (1 if isinstance(op, ast.Eq) else -1), kind
+            return 0, ""
         if isinstance(op, (ast.In, ast.NotIn)):
             sign = 1 if isinstance(op, ast.In) else -1
             if tl in (f"{rest}[:1]", f"{H}[{L}:{L} + 1]"):
@@ -2076,16 +2079,20 @@ def _evidence_polarity(repo: Repo, f: FuncInfo, x: ast.expr, H: str, N: str) -> 
                     consts = {_const_str(e_) for e_ in r.elts}
                 elif _const_str(r) is not None:
                     consts = {"", *list(_const_str(r))}
-                if consts is not None and consts <= {"", "."}:
-                    return sign
+                if consts is not None and consts <= {"", "."} and "." in consts:
+                    return sign, "both" if "" in consts else "dot"
             if tl == L and _separator_positions_of(repo, f, r, H):
-                return sign
-        return 0
-    return 0
+                return sign, "dot"
+        return 0, ""
+    return 0, ""
 
 
-def _evidence_goal(repo: Repo, f: FuncInfo, formula, hay_e: ast.expr, needle_e: ast.expr):
-    """Disjunction of the literals of `formula` that are boundary evidence for (hay, needle); None if there is none."""
+def _evidence_polarity(repo: Repo, f: FuncInfo, x: ast.expr, H: str, N: str) -> int:
+    return _evidence(repo, f, x, H, N)[0]
+
+
+def _evidence_goal(repo: Repo, f: FuncInfo, formula, hay_e: ast.expr, needle_e: ast.expr, kinds: tuple[str, ...] = ("dot", "empty", "both")):
+    """Disjunction of the literals of `formula` that are boundary evidence (of the given kinds) for (hay, needle); None if there is none."""
     from core.guards import atom as mk, atoms_of, f_not, f_or
 
     H, N = _canon(repo, f, hay_e), _canon(repo, f, needle_e)
@@ -2094,7 +2101,9 @@ def _evidence_goal(repo: Repo, f: FuncInfo, formula, hay_e: ast.expr, needle_e: 
         e = _parse_atom(a)
         if e is None:
             continue
-        pol = _evidence_polarity(repo, f, _expand_names(repo, f, e), H, N)
+        pol, kind = _evidence(repo, f, _expand_names(repo, f, e), H, N)
+        if kind not in kinds:
+            continue
         if pol > 0:
             lits.append(mk(a))
         elif pol < 0:
@@ -2190,7 +2199,8 @@ def _raw_test_is_guarded(repo: Repo, f: FuncInfo, test: ast.expr, hay_e: ast.exp
                 whole = f_and([ge, v]) if isinstance(e_.value, (ast.BoolOp, ast.Compare, ast.UnaryOp, ast.Call)) and _evidence_goal(repo, f, f_and([ge, v]), hay_e, needle_e) is not None and _evidence_goal(repo, f, ge, hay_e, needle_e) is None else ge
             if not _has_evidence(repo, f, whole, hay_e, needle_e):
                 # the branch taken when the next character is known NOT to be a separator is a decision on the boundary as well
-                goal = _evidence_goal(repo, f, whole, hay_e, needle_e)
+                # (only a test of the next *character* decides it: `H != N` alone says nothing about what follows)
+                goal = _evidence_goal(repo, f, whole, hay_e, needle_e, kinds=("dot", "both"))
                 if goal is None or not implies(whole, f_not(goal)):
                     return None
         if dependent:
